@@ -81,6 +81,11 @@ CHECKS = {
    text="Exhaustive: about 105k cells = 119 template forms over free variables instantiated with every tuple of 41 value kinds (operators, index read, index assignment, members and methods incl. nil receivers, iteration, calls with 0-3 arguments / blocks / wrong arity, 40 built-in helper forms, sinks). Oracle: Render returns output or an error, never a panic or hang. IndexGuards.tla: 1278 (container, index, value) cells; TLC proves NoPanic for the repaired guards and refutes it for the checks of the pinned commit; the real code's ok/error class equals the model's prediction on every cell (no drift).",
    note="One representative value per kind; random programs over the kind pool are not generated yet. Panics raised inside user-supplied methods are not attributed to plush.",
    design="§6 C04"),
+ "C12": dict(
+   technique="TLC explicit-state model checking of the transcribed argument-binding code against the declarative binding rule (CallBinding.tla, invariant Agree) over the signature family x call shapes; every cell replayed into real plush with a reflect.MakeFunc recorder and probe-wrapped arguments",
+   text="Exhaustive within the bound: 300 (quick) / 1176 (thorough) signatures (0..1 / 0..2 fixed parameters of 4 types, +/- options map, +/- helper context by struct or interface type, 6 result shapes; variadic ...string / ...interface{}) x all calls with 0..3 / 0..4 arguments of 5 kinds x +/- block: 62k / 1.8M cells. TLC: the transcription of evalCallExpression's binding equals the declarative expectation wherever the statement determines it; the pinned commit's variadic nil handling violates it. Real code: invoked-or-not, each received argument (value / zero value / auto-supplied empty map / helper context with HasBlock and rendered block), arguments evaluated once left to right, first result as value, failing error result wraps and empties the output.",
+   note="Calls omitting an ordinary parameter (zero-filled by the code) are unspecified. Signatures with 3 fixed parameters are not enumerated.",
+   design="§6 C12"),
 }
 
 NOT_YET = "check not built yet in this session (work in progress, see DESIGN.md §8)"
